@@ -108,14 +108,100 @@ def replay(args):
     return events, outs + extra
 
 
+def suite_traces(o, tier, strict_traces):
+    """The repository's own test-suite under the hooks: every pytest process's event stream must be a behaviour of the scheduler bookkeeping
+    (Trace_ElabSuite).  Then the binding is demonstrated on this very run: traces with one recorded field corrupted, one event dropped or two
+    events swapped must be REJECTED by the trace specs - if one is accepted the machinery is broken (exit 2), not the library."""
+    from .. import suite
+    res = suite.collect()
+    bad_runs = [r for r in res if r["rc"] not in (0, 5)]
+    if bad_runs:
+        raise tlc.TlcError("test-suite under hooks did not pass: " + "; ".join(f"{r['file']}: {r['summary']}" for r in bad_runs))
+    traces = []
+    names = []
+    for r in res:
+        if r["events"]:
+            for e in r["events"]:
+                e["tid"] = len(traces)
+            traces.append(r["events"])
+            names.append(r["file"])
+    files = tlc.split_batches(traces, WORK / "c07", f"suite-{tier}", NPROC)
+    out = tlc.validate_batches("trace/Trace_ElabSuite.tla", "trace/Trace_ElabSuite.cfg", files, jobs=NPROC, tag="c07suite")
+    nv = 0
+    for rr in out:
+        o.transitions += rr.generated
+        for tid, ok, clause in rr.verdicts:
+            nv += 1
+            if not ok:
+                k = int(clause.split("@")[1]) if "@" in clause else 0
+                o.violations.append(Violation(clause="suite:" + clause.split("@")[0], case={"test_file": names[tid], "test": traces[tid][max(0, k - 1)].get("test", "")},
+                                              features=["suite", names[tid]], detail=traces[tid][max(0, k - 8):k + 2]))
+    if nv != len(traces):
+        raise tlc.TlcError(f"C07 suite: {len(traces)} traces, {nv} verdicts")
+    o.cover["suite_events"] = sum(len(t) for t in traces)
+    o.cover["suite_test_files"] = len(traces)
+    o.evaluations += sum(len(t) for t in traces)
+    o.traces += len(traces)
+    # ---- binding demonstration
+    import copy
+    def tamper(tr, how):
+        t = copy.deepcopy(tr)
+        idx = [k for k, e in enumerate(t) if e["ev"] == "enter"]
+        if how == "ndone":
+            k = idx[len(idx) // 2]
+            t[k]["ndone"] += 1
+        elif how == "drop_exit":
+            k = [k for k, e in enumerate(t) if e["ev"] == "exit"][len(idx) // 3]
+            del t[k]
+        elif how == "drop_enter":
+            del t[idx[len(idx) // 2]]
+        elif how == "pending":
+            k = idx[-1]
+            t[k]["pending"] = t[k]["pending"][:-1]
+        elif how == "skip_as_enter":
+            ks = [k for k, e in enumerate(t) if e["ev"] == "skip_done"]
+            if not ks:
+                return None
+            t[ks[len(ks) // 2]]["ev"] = "enter"
+        return t
+    tampered = []
+    spec_of = []
+    src = max(traces, key=len)
+    strict_src = max(strict_traces, key=len)
+    for how in ("ndone", "drop_exit", "drop_enter", "pending", "skip_as_enter"):
+        for which, base in (("Trace_ElabSuite", src), ("Trace_Elab", strict_src)):
+            t = tamper(base, how)
+            if t is None:
+                continue
+            for e in t:
+                e["tid"] = len(tampered)
+            tampered.append(t)
+            spec_of.append((which, how))
+    rejected = 0
+    for which in ("Trace_ElabSuite", "Trace_Elab"):
+        sel = [t for t, (w, _) in zip(tampered, spec_of) if w == which]
+        files = tlc.split_batches(sel, WORK / "c07", f"tamper-{which}-{tier}", 1)
+        for rr in tlc.validate_batches(f"trace/{which}.tla", f"trace/{which}.cfg", files, jobs=1, tag="c07tamper"):
+            for tid, ok, clause in rr.verdicts:
+                if ok:
+                    raise tlc.TlcError(f"binding check failed: {spec_of[tid][0]} ACCEPTED a trace tampered by '{spec_of[tid][1]}'")
+                rejected += 1
+    if rejected != len(tampered):
+        raise tlc.TlcError(f"binding check: {len(tampered)} tampered traces, {rejected} verdicts")
+    o.cover["tampered_traces_rejected"] = rejected
+    o.extra["binding_demonstration"] = [f"{w}: {h} -> rejected" for w, h in spec_of]
+
+
 def reference_case(shape, name):
     return {"shape": shape, "calls": [[name]], "kinds": ["to_proto"], "reference": True}
 
 
 def run(tier, seed, replay_file=None):
     o = Outcome(PID, tier, seed)
-    o.rule = ("call histories enumerated by TLC from MC_ElabSched (4 DAG shapes of 5 modules with sharing; 2 calls quick / 3 thorough; top lists of 1-2 modules) "
-              "x entry-point assignments; non-trivial = a later call touches a module processed by an earlier one; distinct by (history, kinds).")
+    o.rule = ("(i) call histories enumerated by TLC from MC_ElabSched (4 DAG shapes of 5 modules with sharing; 2 calls quick / 3 thorough; top lists of 1-2 modules) "
+              "x entry-point assignments; non-trivial = a later call touches a module processed by an earlier one; distinct by (history, kinds). (ii) the hook traces of "
+              "the repository's own test-suite, one pytest process per test file, validated against the scheduler bookkeeping (Trace_ElabSuite). (iii) tampered "
+              "copies of accepted traces, which must be rejected.")
     o.trusted_base = ["harness/elabtrace.py (hook sink, digests)", "harness/props/c07.py driver", "harness/design.py builder", "TLC"]
     rnd = random.Random(seed)
     passes = passlist.write_tla()
@@ -209,7 +295,10 @@ def run(tier, seed, replay_file=None):
         if not ok2:
             o.violations.append(Violation(clause="output:" + c2, case=case, features=["shape_" + case["shape"]], detail=regs[i]))
     o.distinct_nontrivial = nt
-    o.required_cover = ["skip_done", "enter", "apply_begin", "exit", "call_end", "out_to_proto", "out_netlist", "out_newparent", "out_add_after_elab"]
+    if not replay_file:
+        suite_traces(o, tier, traces)
+    o.required_cover = ["skip_done", "enter", "apply_begin", "exit", "call_end", "out_to_proto", "out_netlist", "out_newparent", "out_add_after_elab",
+                        "suite_events", "tampered_traces_rejected"]
     for i in rnd.sample(range(len(cases)), 2):
         o.samples.append({"case": cases[i], "first_events": traces[i][:6], "outputs": regs[i][:4], "verdicts": [v1[i], v2[i]]})
     return o
